@@ -307,6 +307,54 @@ class C02(Check):
                                  "the real conditions match neither the as-coded model (dh > 1e10 + Htol / dh <= 1e10 + Htol) nor the repaired one (+ flow < -Qtol / dh > Htol)"))
         return broken
 
+    # ------------------------------------------------------------------ (b2) the change tracker
+    def _tracker(self, ctx, wntr):
+        """REAL ControlChangeTracker + real ControlAction / _InternalControlAction on a pipe's status vs the Lean `Tracked` model"""
+        from wntr.network import controls as CT
+        from wntr.network import LinkStatus
+
+        rng = ctx.rng
+        broken = []
+        batch = Batch()
+        for _ in range(20 if ctx.quick else 200):
+            wn = wntr.network.WaterNetworkModel()
+            wn.add_junction("a")
+            wn.add_junction("b")
+            wn.add_pipe("p", "a", "b", initial_status=rng.choice(["OPEN", "CLOSED"]))
+            wn.reset_initial_values()
+            p = wn.get_link("p")
+            acts = [CT.ControlAction(p, "status", LinkStatus.Open), CT.ControlAction(p, "status", LinkStatus.Closed),
+                    CT._InternalControlAction(p, "_internal_status", LinkStatus.Open, "status"),
+                    CT._InternalControlAction(p, "_internal_status", LinkStatus.Closed, "status")]
+            tr = CT.ControlChangeTracker()
+            cond = CT.SimTimeCondition(wn, "=", 0)
+            for a in acts:
+                tr.register_control(CT.Control(cond, a))
+            tr.set_reference_point("model")
+            toks, impl = [], []
+            v0 = int(p.status)
+            for _ in range(rng.randint(1, 10)):
+                if rng.random() < 0.25:
+                    tr.reset_reference_point("model")
+                    toks.append("r")
+                else:
+                    rng.choice(acts).run_control_action()
+                    toks.append("f%d" % int(p.status))
+                ch = tr.changes_made("model")
+                if ch != ((p, "status") in list(tr.get_changes("model"))):
+                    broken.append(Broken("correspondence", "ControlChangeTracker", "changes_made and get_changes disagree"))
+                impl.append("T" if ch else "F")
+
+            def cb(o, impl=impl, toks=toks, v0=v0):
+                ctx.case(("tracker", len(toks), "r" in toks), nontrivial=True)
+                ctx.count("tracker_histories")
+                if o.split() != impl and len(broken) < 3:
+                    broken.append(Broken("correspondence", "ControlChangeTracker vs Lean Tracked", "start %d ops %s: impl %s model %s" % (v0, toks, impl, o.split())))
+
+            batch.add("tracker %d %s" % (v0, " ".join(toks)), cb)
+        batch.run()
+        return broken
+
     # ------------------------------------------------------------------ (c) pump smoothing coefficients
     def _smoothing(self, ctx, wntr):
         from wntr.sim.models import constraint
@@ -458,6 +506,7 @@ class C02(Check):
         broken += C.zoo_agreement(ctx, wntr, "C02P", self.info["names"]["piecewise"], "PDD", "piecewise", npts, lambda mbc, lc: lc)
         broken += self._conditions(ctx, wntr)
         broken += self._smoothing(ctx, wntr)
+        broken += self._tracker(ctx, wntr)
         corpus = [c["spec"] for _, c in vlib.corpus_items(self.pid) if "spec" in c]
         specs = corpus + C.gen_specs(ctx, 30 if ctx.quick else 400, 22 if ctx.quick else 132)
         f, b = self._static_rows(ctx, wntr, specs[: (26 if ctx.quick else 250)])
